@@ -38,6 +38,13 @@ DBusValidity verif_stub_validate_body (const DBusString *sig, int sig_start, int
   __CPROVER_assume (wf >= 0);      /* bound of the reference decoder: no variant nested inside a field value */
   if (!wf) { int v = nondet_int (); __CPROVER_assume (v != DBUS_VALID); return v; }
   *bytes_remaining = in_len - (16 + (int) hdr_ref_fields_len (in_buf)); return DBUS_VALID; }
+/* _dbus_string_copy_len as its documented contract ("appends/inserts a copy of the given range"): a byte loop instead of
+ * the realloc/memmove machinery of dbus-string.c (CBMC's memmove model makes propositional reduction run out of memory) */
+dbus_bool_t verif_stub_string_copy_len (const DBusString *source, int start, int len, DBusString *dest, int insert_at)
+{ int k; DBusRealString *d = (DBusRealString *) dest;
+  __CPROVER_assert (d->str == hdr_store && d->len == 0 && insert_at == 0 && start == 0 && len >= 0 && len <= REAL(source)->len && len <= VERIF_N, "precondition of _dbus_string_copy_len: the first header_len bytes into the empty header");
+  for (k = 0; k < VERIF_N; k++) { if (k >= len) break; hdr_store[k] = REAL(source)->str[k]; }
+  hdr_store[len] = 0; d->len = len; return 1; }
 /* after a successful load no cache entry is UNKNOWN (C01.hdr.load), so no accessor rebuilds the cache */
 void verif_stub_cache_revalidate (DBusHeader *h) { __CPROVER_assert (0, "no accessor revalidates the cache of a freshly loaded header"); __CPROVER_assume (0); }
 void harness (void)
